@@ -17,6 +17,7 @@ claimed={
  "C06":("other","structural necessary conditions: support decision lists, PMF/CDF/moment formulas, tail-flip identity, term-ratio recurrence, floor semantics of k; not 1e-10 accuracy","formula conformance (engine B) + D-floor"),
  "C07":("other","structural necessary conditions: dispatch to the distribution's own method on the ok edge of the type assertion, decision list of the generic quantile closure, predicate/bracket/result-1 plumbing of the bisection, bisectBool recurrences and termination tests, Rand's re-draw loop and source; not bracket-expansion completeness or accuracy","control-shape (C-dispatch, reach conditions) + recurrence conformance"),
  "C08":("other","structural necessary conditions: the formulas and recurrences of BetaInc/betacf, GammaInc/GammaIncComp (sibling agreement, sum to 1 symbolically), Choose/Lchoose, Sign equal the cited ones; bounded loops; not accuracy/convergence","formula and recurrence conformance (engine B), sibling agreement"),
+ "C15":("other","structural necessary conditions: no-mutation, pair-preserving Swap, monomial basis degree = storage index for every basis function, evaluator recurrences, Coefficients plumbing, normal-equation call sequence with data flow, LOESS window/search/tricube/local-fit formulas, sorting on copies; not the minimisation property inside gonum","basis-degree rule + call-sequence data flow + formula/recurrence conformance + effect analysis"),
  "C16":("other","structural necessary conditions: Map/Unmap formulas for Linear, Log (both signs), QQ; derived symbolically Map(Min)=0, Map(Max)=1, Unmap∘Map=id, Map∘Unmap=id; NewLog decision list and error type; not floating-point monotonicity","formula conformance + symbolic composition/substitution on normal forms"),
  "C14":("other","structural necessary conditions: exactly-one-increment, guard/counter agreement by reach conditions, floor semantics of the bin index, BinToValue∘bin = id symbolically, quantile interpolation formulas","control-shape rules + D-floor + formula conformance"),
 }
